@@ -101,6 +101,16 @@ CHECKS: dict[str, dict] = {
         technique="fault enumeration on the real TCP/UDP servers: 9 exception classes x 9 hook positions x connection set-up faults, with 1-2 healthy clients whose exchanges are interleaved with the faulty client's",
         text="After every injected failure the server keeps serving, every healthy client gets every response, the faulty TCP client's socket is closed and its disconnection hook runs iff documented, a later datagram from the faulty UDP address gets a fresh handler, and no socket leaks. TLS-listener handshake faults are not covered.",
     ),
+    "C13": dict(
+        cat="exploration", ref="DESIGN.md §3 C13, §2 E6", engine="E6 progmc on E2 vloop",
+        technique="exhaustive enumeration of all small programs of a cancel-scope grammar (bounded node count and nesting) run on the real backend over the virtual loop, external task.cancel() injected at every reference midpoint and at every loop-iteration index, compared with a reference interpreter (trace equality / clause form); ties skipped and counted",
+        text="For every enumerated program and injection: bodies of cancelled scopes are abandoned at the next unshielded checkpoint, a scope that was not cancelled never swallows a cancellation, timeout() raises iff its scope caught, no leftover cancellation request after scope exit, shielded sections run to completion with the pending cancellation delivered afterwards. Three genuine defects (F5, G1, G2) are recorded as known findings with their specific keys.",
+    ),
+    "C18": dict(
+        cat="exploration", ref="DESIGN.md §3 C18, §2 E4", engine="E2 vloop (async servers) + E4 vthreads (standalone servers)",
+        technique="stateless enumeration of lifecycle call sequences: async servers with every call started at every loop-iteration boundary (complete for sequences of <= 4 calls, thorough 5); standalone servers as real threads under a baton scheduler with preemption-bounded schedules (bound 2, thorough 3) over all synchronisation points; oracle = reference lifecycle state machine",
+        text="For all explored orders and interleavings of serve_forever / shutdown / server_close / client activity: shutdown returns only when no serve is in progress and never blocks forever, a stopped server can serve again unless closed, a closed server refuses with ServerClosedError, an overlapping serve_forever is refused with ServerAlreadyRunning, listeners are closed after server_close, nothing deadlocks. One transient known finding (standalone server_close during portal exit) is keyed separately.",
+    ),
 }
 
 NOT_YET: dict[str, str] = {}
@@ -147,6 +157,8 @@ def main() -> None:
             {"name": "E2 vloop", "path": "mc/vloop.py", "serves_properties": ["C04", "C10", "C12", "C13", "C14", "C15", "C16", "C17", "C18", "C19", "C20"], "kind_free_text": "the stock asyncio SelectorEventLoop driven by the virtual world"},
             {"name": "E7 tlsrig", "path": "mc/tlsrig.py", "serves_properties": ["C08", "C09"], "kind_free_text": "Ed25519 test certificate, independent stdlib SSLObject peer, byte-level ciphertext relay (fragment / cut / hold), in-memory leaf transport, blocking variant over a socketpair"},
             {"name": "srvrig", "path": "mc/srvrig.py", "serves_properties": ["C15", "C16", "C17"], "kind_free_text": "real EasyNetwork servers on fake listener / datagram sockets, scripted peers placed at loop-iteration boundaries, handler recorder"},
+            {"name": "E6 progmc", "path": "mc/progmc.py", "serves_properties": ["C13"], "kind_free_text": "program enumerator for the cancel-scope grammar, reference interpreter, real interpreter on the virtual loop, trace diff"},
+            {"name": "E4 vthreads", "path": "mc/vthreads.py", "serves_properties": ["C11", "C12", "C18"], "kind_free_text": "baton-passing scheduler of real threads: controlled Lock/RLock/Event/Condition/Thread swapped into the library's modules, cooperating event loop, preemption-bounded choices, virtual deadlines, deadlock detection"},
             {"name": "E5 chunkmc", "path": "mc/chunkmc.py", "serves_properties": ["C01", "C02", "C03", "C05", "C06", "C07"], "kind_free_text": "explicit-state search over the real stream consumers with canonical heap fingerprints"},
         ],
         "checks": checks,
